@@ -9,9 +9,9 @@ if [ "$1" = "--seeded" ]; then
   cp /verif/seeded/$SID/patch.diff $OUT/patch$K.diff; cp -r /verif/seeded/$SID/demo $OUT/demo$K
   WT=/tmp/seeded-wt-$SID; mkdir -p /tmp/seeded-confirm; LOG=/tmp/seeded-confirm/$SID.log
 else
-  PID=$1; K=$2
-  OUT=/tmp/mut/$PID-out; WT=/tmp/mut/confirm-wt-$PID-$K; LOG=/tmp/mut/confirm/$PID-$K.log
-  mkdir -p /tmp/mut/confirm
+  PID=$1; K=$2; MUT_ROOT=${MUT_ROOT:-/tmp/mut}
+  OUT=$MUT_ROOT/$PID-out; WT=$MUT_ROOT/confirm-wt-$PID-$K; LOG=$MUT_ROOT/confirm/$PID-$K.log
+  mkdir -p $MUT_ROOT/confirm
 fi
 : > $LOG
 export CARGO_NET_OFFLINE=true
@@ -22,7 +22,7 @@ echo "== test suite with the change" >>$LOG
 if cargo test --workspace --no-fail-fast --offline >>$LOG.tests 2>&1; then echo "tests: PASS" >>$LOG; T=pass; else echo "tests: FAIL" >>$LOG; grep -E "^test .* FAILED|panicked" $LOG.tests | head -5 >>$LOG; T=fail; fi
 # demo with the change: point its path deps at this worktree
 D=$WT/_demo; rm -rf $D; cp -r $OUT/demo$K $D; rm -rf $D/target
-grep -rl "/tmp/mut/$PID/" $D --include=Cargo.toml --include=*.rs --include=*.json 2>/dev/null | xargs -r sed -i "s#/tmp/mut/$PID/#$WT/#g"
+grep -rlE "/tmp/mut2?/$PID/" $D --include=Cargo.toml --include=*.rs --include=*.json 2>/dev/null | xargs -r sed -i -E "s#/tmp/mut2?/$PID/#$WT/#g"
 cp $WT/Cargo.lock $D/Cargo.lock 2>/dev/null
 ( cd $D && timeout 900 cargo run --offline >>$LOG.demo_with 2>&1 ); W=$?
 echo "demo with change: exit=$W $(grep -o 'PASS\|FAIL' $LOG.demo_with | tail -1)" >>$LOG
